@@ -495,6 +495,10 @@ func judge(cfg Config, r *result) verdict {
 			v.msg = fmt.Sprintf("quiescent with nothing left to run, yet delivered %d + reported %d < written %d: a returned Write needs a later Write or Close to be delivered", r.qDelivered, r.qReported, r.written)
 		case (r.quiescentSeen || cfg.Early) && r.producersDone == cfg.P && !r.closeReturned:
 			v.msg = fmt.Sprintf("Close did not return (deadlock=%v, step bound hit=%v)", s.Deadlock, s.StepLimit)
+		case r.closeReturned && !cfg.NilAlert && len(r.delivered)+r.reported < r.written:
+			// every one of these Writes had returned before Close was called: each message reaches the
+			// wrapped writer or the alerter, at the latest through Close (also judged by C11)
+			v.msg = fmt.Sprintf("the system has come to rest after Close, yet delivered %d + reported %d < written %d: a returned Write reached neither the wrapped writer nor the alerter", len(r.delivered), r.reported, r.written)
 		}
 		v.nontrivial = s.Preempt >= 1
 	}
@@ -716,6 +720,12 @@ func dfsConfigs() []struct {
 			c := out[i]
 			c.Cfg.Early = true
 			out = append(out, c)
+		}
+	}
+	if prop == "C11" || prop == "C12" {
+		// Close arriving while the consumer is inside the wrapped writer and the ring is full again behind it
+		for _, poller := range []bool{false, true} {
+			out = append(out, cb{Config{P: 1, W: 3, Size: 2, Poller: poller, Writer: "yields", Early: true}, 2}, cb{Config{P: 1, W: 4, Size: 3, Poller: poller, Writer: "yields", Early: true}, 2})
 		}
 	}
 	if prop == "C10" {
